@@ -47,12 +47,13 @@ BODY = {
 }
 
 
+# (a processing instruction extends to the first `?>` outside quoted strings, as the scanner documents: PHP strings may hold `?>`)
 # alternative bodies: terminators preceded by a copy of their own first character, empty bodies, bodies made of the very
 # characters that open tags
 BODY_VARIANTS = [
     BODY,
     {'comment': '<!-- <b> --->', 'cdata': '<![CDATA[ a[b[0]]]]>', 'pi': '<??>', 'script': '', 'style': '', 'text': ' > '},
-    {'comment': '<!---->', 'cdata': '<![CDATA[]]>', 'pi': '<? <b ??>', 'script': '<', 'style': '</ <', 'text': 't'},
+    {'comment': '<!---->', 'cdata': '<![CDATA[]]>', 'pi': '<?php echo "?><b>in</b>" \'?>\'; ??>', 'script': '<', 'style': '</ <', 'text': 't'},
 ]
 
 
